@@ -278,6 +278,7 @@ static void run_case(Rng& r, Ctx& c)
     },
     60., 120., "child.err");
   bool complete = mergeCtx(c, o.payload);
+  if (c.verbose) fputs(slurp("child.err", 1 << 18).c_str(), stderr); // replay: show what the case printed (file text, ok/FAIL lines)
   if (c.sig.empty()) c.setSig("class=" + clsName + ":died");
   if (o.kind == ChildOutcome::OK && complete)
   {
